@@ -2,6 +2,7 @@ import CasbinModel.Enforcer
 import CasbinModel.Lemmas.Store
 import CasbinModel.Lemmas.Batch
 import CasbinModel.Lemmas.Load
+import CasbinModel.Lemmas.Shape
 /-!
 # C14 — Change notifications are a faithful changelog
 
@@ -630,5 +631,176 @@ theorem demo_ready : Ready demo := by
 example : ∃ evs, ([NOp.add "p" "p" ["a"], .removeMany "p" "p" [["a"]]].foldl NOp.run demo).log = demo.log ++ evs ∧
     SEq (evs.foldl applyEvent demo.store) ([NOp.add "p" "p" ["a"], .removeMany "p" "p" [["a"]]].foldl NOp.run demo).store :=
   replica_history _ demo demo_ready
+
+/-! ### Histories that also clear and save -/
+
+/-- a management call, a `clear_policy`, or a `save_policy` (whatever the adapter answers) -/
+inductive WOp where
+  | mgmt (op : NOp)
+  | clear
+  | save
+
+def WOp.run (e : Enforcer) : WOp → Enforcer
+  | .mgmt op => op.run e
+  | .clear => e.clearPolicy.1
+  | .save => e.savePolicy.1
+
+/-- `Ready`, and every role definition has the two places linking needs (true of every enforcer the constructor returns
+with auto-build on) -/
+structure Ready2 (e : Enforcer) : Prop where
+  ready : Ready e
+  arity : ∀ a ∈ e.store.gArities, 2 ≤ a
+
+theorem run_gArities (e : Enforcer) (h : Ready e) (op : NOp) : (op.run e).store.gArities = e.store.gArities := by
+  obtain ⟨hs, hl, _⟩ := h
+  cases op with
+  | add sec pt rule =>
+    show (e.addPolicy sec pt rule).1.store.gArities = _
+    rw [(add_notifies e sec pt rule hs hl).1]; exact Store.addPolicy_gArities _ _ _ _
+  | remove sec pt rule =>
+    show (e.removePolicy sec pt rule).1.store.gArities = _
+    rw [(remove_notifies e sec pt rule hs hl).1]; exact Store.removePolicy_gArities _ _ _ _
+  | addMany sec pt rules =>
+    show (e.addPolicies sec pt rules).1.store.gArities = _
+    rw [(addPolicies_notifies e sec pt rules hs hl).1]; exact Store.addPolicies_gArities _ _ _ _
+  | removeMany sec pt rules =>
+    show (e.removePolicies sec pt rules).1.store.gArities = _
+    rw [(removePolicies_notifies e sec pt rules hs hl).1]; exact Store.removePolicies_gArities _ _ _ _
+  | removeFiltered sec pt idx vals =>
+    show (e.removeFiltered sec pt idx vals).1.store.gArities = _
+    rw [(removeFiltered_notifies e sec pt idx vals hs hl).1]; exact Store.removeFiltered_gArities _ _ _ _ _
+
+theorem live_emit (x : Enforcer) (h : Live x) (ev : Event) : Live (x.emit ev) := by
+  obtain ⟨_, m2, m3, m4⟩ := emit_misc x ev
+  exact ⟨by rw [m2]; exact h.notify, by rw [m3]; exact h.one, by rw [m4]; exact h.watcher⟩
+
+theorem emit_store_eq (x : Enforcer) (ev : Event) : (x.emit ev).store = x.store := by
+  unfold Enforcer.emit; split <;> rfl
+
+/-- `clear_policy` with auto-save off, auto-build on or off: the rules are gone, exactly one `ClearPolicy` is delivered,
+nothing else moves -/
+theorem clear_step (e : Enforcer) (h : Ready2 e) :
+    e.clearPolicy.1.store = e.store.clear ∧ e.clearPolicy.1.log = e.log ++ [Event.clearPolicy] ∧
+    e.clearPolicy.1.autoSave = false ∧ Live e.clearPolicy.1 := by
+  obtain ⟨⟨hs, hl, _⟩, ha⟩ := h
+  unfold Enforcer.clearPolicy
+  rw [if_neg (by rw [hs]; exact Bool.false_ne_true)]
+  simp only []
+  by_cases hb : e.autoBuild = true
+  · rw [if_pos hb]
+    have hnone := buildRoleLinks_cleared e ha
+    obtain ⟨f1, f2, f3, f4, f5, f6, _⟩ := buildRoleLinks_fields ({ e with store := e.store.clear } : Enforcer)
+    cases hbr : ({ e with store := e.store.clear } : Enforcer).buildRoleLinks with
+    | mk e2 res =>
+      rw [hbr] at hnone f1 f2 f3 f4 f5 f6
+      simp only at hnone f1 f2 f3 f4 f5 f6
+      subst hnone
+      simp only []
+      have hl2 : Live e2 := ⟨by rw [f4]; exact hl.notify, by rw [f5]; exact hl.one, by rw [f6]; exact hl.watcher⟩
+      refine ⟨?_, ?_, ?_, live_emit e2 hl2 _⟩
+      · rw [emit_store_eq]; exact f1
+      · rw [emit_live e2 hl2, f2]
+      · rw [(emit_misc e2 _).1, f3]; exact hs
+  · rw [if_neg hb]
+    simp only []
+    have hl2 : Live ({ e with store := e.store.clear } : Enforcer) := ⟨hl.notify, hl.one, hl.watcher⟩
+    refine ⟨?_, ?_, ?_, live_emit _ hl2 _⟩
+    · rw [emit_store_eq]
+    · rw [emit_live _ hl2]
+    · rw [(emit_misc _ _).1]; exact hs
+
+/-- `save_policy`: the rules stay; at most one notification, a snapshot of exactly the rules stored -/
+theorem save_step (e : Enforcer) (h : Ready e) :
+    e.savePolicy.1.store = e.store ∧
+    (e.savePolicy.1.log = e.log ∨
+      e.savePolicy.1.log = e.log ++ [Event.savePolicy (e.store.allOf "p" ++ e.store.allOf "g")]) ∧
+    e.savePolicy.1.autoSave = false ∧ Live e.savePolicy.1 := by
+  obtain ⟨hs, hl, _⟩ := h
+  unfold Enforcer.savePolicy
+  by_cases hf : e.adapter.filtered = true
+  · rw [if_pos hf]; exact ⟨rfl, Or.inl rfl, hs, hl⟩
+  · rw [if_neg hf]
+    cases hsv : e.adapter.save e.store with
+    | mk a ok =>
+      cases ok with
+      | none =>
+        exact ⟨rfl, Or.inl rfl, hs, ⟨hl.notify, hl.one, hl.watcher⟩⟩
+      | some u =>
+        simp only []
+        have hl2 : Live ({ e with adapter := a } : Enforcer) := ⟨hl.notify, hl.one, hl.watcher⟩
+        refine ⟨?_, Or.inr ?_, ?_, live_emit _ hl2 _⟩
+        · rw [emit_store_eq]
+        · rw [emit_live _ hl2]
+        · rw [(emit_misc _ _).1]; exact hs
+
+theorem wstep_follows (e : Enforcer) (h : Ready2 e) (op : WOp) :
+    ∃ evs, (op.run e).log = e.log ++ evs ∧ SEq (evs.foldl applyEvent e.store) (op.run e).store := by
+  cases op with
+  | mgmt op => exact step_follows e h.ready op
+  | clear =>
+    obtain ⟨h1, h2, _, _⟩ := clear_step e h
+    refine ⟨[Event.clearPolicy], h2, ?_⟩
+    show SEq (applyEvent e.store Event.clearPolicy) e.clearPolicy.1.store
+    rw [h1]; exact SEq.refl _
+  | save =>
+    obtain ⟨h1, h2, _, _⟩ := save_step e h.ready
+    rcases h2 with h2 | h2
+    · refine ⟨[], by rw [List.append_nil]; exact h2, ?_⟩
+      show SEq e.store e.savePolicy.1.store
+      rw [h1]; exact SEq.refl _
+    · refine ⟨[Event.savePolicy (e.store.allOf "p" ++ e.store.allOf "g")], h2, ?_⟩
+      show SEq e.store e.savePolicy.1.store
+      rw [h1]; exact SEq.refl _
+
+theorem wrun_ready (e : Enforcer) (h : Ready2 e) (op : WOp) : Ready2 (op.run e) := by
+  cases op with
+  | mgmt op =>
+    refine ⟨run_ready e h.ready op, ?_⟩
+    show ∀ a ∈ (op.run e).store.gArities, 2 ≤ a
+    rw [run_gArities e h.ready op]; exact h.arity
+  | clear =>
+    obtain ⟨h1, _, h3, h4⟩ := clear_step e h
+    refine ⟨⟨h3, h4, ?_⟩, ?_⟩
+    · intro sec pt
+      show (e.clearPolicy.1.store.getPolicy sec pt).Nodup
+      rw [h1, getPolicy_clear']; exact List.nodup_nil
+    · show ∀ a ∈ e.clearPolicy.1.store.gArities, 2 ≤ a
+      rw [h1, Store.clear_gArities]; exact h.arity
+  | save =>
+    obtain ⟨h1, _, h3, h4⟩ := save_step e h.ready
+    refine ⟨⟨h3, h4, ?_⟩, ?_⟩
+    · show e.savePolicy.1.store.WF
+      rw [h1]; exact h.ready.wf
+    · show ∀ a ∈ e.savePolicy.1.store.gArities, 2 ≤ a
+      rw [h1]; exact h.arity
+
+/-- **the changelog is faithful over every history of management calls, `clear_policy` and `save_policy`**, with
+auto-build on or off and whatever the adapter answers to a save: a replica that applies exactly the events delivered
+(a `ClearPolicy` empties it, a `SavePolicy` snapshot leaves it as it is) holds the rules the primary holds -/
+theorem replica_history_full (ops : List WOp) (e : Enforcer) (h : Ready2 e) :
+    ∃ evs, (ops.foldl WOp.run e).log = e.log ++ evs ∧
+      SEq (evs.foldl applyEvent e.store) (ops.foldl WOp.run e).store := by
+  induction ops generalizing e with
+  | nil => exact ⟨[], by simp, SEq.refl _⟩
+  | cons op ops ih =>
+    obtain ⟨ev1, hl1, hs1⟩ := wstep_follows e h op
+    obtain ⟨evs', hl2, hs2⟩ := ih (op.run e) (wrun_ready e h op)
+    refine ⟨ev1 ++ evs', ?_, ?_⟩
+    · simp only [List.foldl_cons]; rw [hl2, hl1, List.append_assoc]
+    · simp only [List.foldl_cons, List.foldl_append]
+      exact SEq.trans (foldEvents_congr evs' hs1) hs2
+
+/-- a save that reaches the adapter and succeeds is always announced - also when nothing is stored -/
+theorem save_empty_notifies (e : Enforcer) (hl : Live e) (hf : e.adapter.filtered = false) (a : AdapterSt)
+    (hok : e.adapter.save e.store = (a, some ())) (hempty : e.store.allOf "p" ++ e.store.allOf "g" = []) :
+    e.savePolicy.1.log = e.log ++ [Event.savePolicy []] := by
+  rw [(save_notifies e hl hf a hok).1, hempty]
+
+theorem demo_ready2 : Ready2 demo := ⟨demo_ready, by intro a ha; simp [Store.gArities, demo] at ha⟩
+example : ∃ evs, ([WOp.mgmt (.add "p" "p" ["a"]), .save, .clear, .save].foldl WOp.run demo).log = demo.log ++ evs ∧
+    SEq (evs.foldl applyEvent demo.store) ([WOp.mgmt (.add "p" "p" ["a"]), .save, .clear, .save].foldl WOp.run demo).store :=
+  replica_history_full _ demo demo_ready2
+example : ([WOp.mgmt (.add "p" "p" ["a"]), .clear, .save].foldl WOp.run demo).log =
+    [Event.addPolicy "p" "p" ["a"], Event.clearPolicy, Event.savePolicy []] := by decide +kernel
 
 end Casbin.C14
